@@ -50,8 +50,10 @@ Judge(e) ==
     LET fr == fs.frames
         nc == Complete(fr, e.cut)
         \* while the prefix was being delivered: some prefix of what had been sent, never shrinking
+        \* (the observer reads A and then C in one pipeline: two moments, the second not before the first)
         obsOK == \A i \in 1..Len(e.obs) :
-                    \E p \in 0..Complete(fr, e.obs[i].sent) : Explains(fr, p, e.obs[i].a, e.obs[i].c)
+                    \E p1 \in 0..Complete(fr, e.obs[i].sent) : \E p2 \in p1..Complete(fr, e.obs[i].sent) :
+                        e.obs[i].a = ValA(fr, p1) /\ e.obs[i].c = ValC(fr, p2)
         finalAll == Explains(fr, nc, e.a, e.c)
         finalSome == \E p \in 0..nc : Explains(fr, p, e.a, e.c)
             IN  IF ~e.alive \/ ~e.fresh THEN [tags |-> {"C18"}, rule |-> "server.stopped.serving"]
